@@ -36,8 +36,8 @@ AForms == IF Level = "quick"
                 {"s3:GetObject", "s3:DeleteObject"}, {"s3:PutObject", "s3:GetObjectTagging"},
                 {"s3:ListBucket"}, {"s3:GetBucket*"}, {"s3:Get*"}, {"s3:ListBucket", "s3:GetObjectTagging"}}
 RForms == IF Level = "quick"
-          THEN {{Bucket}, {B("*")}, {B("a")}, {B("a*")}, {B("?b")}, {Bucket, B("*")}}
-          ELSE {{Bucket}, {B("*")}, {B("a")}, {B("a*")}, {B("?b")}, {B("*b")}, {B("a?b")},
+          THEN {{Bucket}, {B("*")}, {B("a")}, {B("a*")}, {B("?b")}, {B("a/*")}, {Bucket, B("*")}}
+          ELSE {{Bucket}, {B("*")}, {B("a")}, {B("a*")}, {B("?b")}, {B("*b")}, {B("a?b")}, {B("a/*")},
                 {Bucket, B("*")}, {B("a"), B("b*")}, {Bucket, B("a*")}}
 
 AsDoc(st) == [syntax |-> "ok", hasStatement |-> TRUE,
@@ -52,7 +52,9 @@ N == Len(S)
 
 QObjActs == {"s3:GetObject", "s3:GetObjectTagging", "s3:DeleteObject", "s3:PutObject"}
 QBktActs == {"s3:ListBucket", "s3:GetBucketAcl", "s3:GetBucketTagging"}
-QKeys    == {"a", "ab", "b", "a/b"}
+\* ("a/": a key that is not in path-cleaned form - the resource of a request is the
+\* string bucket/key exactly as the key is written)
+QKeys    == {"a", "ab", "b", "a/b", "a/"}
 Queries  == [who : Users, action : QObjActs, resource : {B(k) : k \in QKeys}]
               \cup [who : Users, action : QBktActs, resource : {Bucket}]
 Q  == SetToSeq(Queries)
